@@ -55,6 +55,10 @@ Proof.
   induction n as [|k IH]; intros d s x dur s1 r HN; simpl.
   - intros H; inversion H; subst. unfold J. rewrite HN. auto.
   - assert (HN1 : NoLive (enter_state s x)) by exact HN.
+    destruct (assoc x (t_enter_goto d)) as [nx|].
+    { destruct (str_mem nx (fd_states (t_fsm d))).
+      - intros H. destruct (IH _ _ _ _ _ _ HN1 H) as [A B]. split; [exact A|exact B].
+      - intros H; inversion H; subst. unfold J. rewrite HN1. auto. }
     destruct (assoc x (fd_timed (t_fsm d))) as [tev|].
     2:{ intros H; inversion H; subst. unfold J. rewrite HN1. auto. }
     destruct (eff_duration d x dur) as [| |us].
